@@ -263,7 +263,7 @@ func genC14(c *Ctx) {
 					continue
 				}
 				og := cueValidateGuarded(gq, txt, "")
-				gl, _ := json.Marshal(map[string]any{"s": root, "p": []string{"input", "recv"}, "cp": "", "pos": "group", "dom": true})
+				gl, _ := json.Marshal(map[string]any{"s": root, "p": []string{"input", "recv"}, "cp": "", "pos": "group", "dom": true, "qh": hx(gq)})
 				c.Record(gl, og.Line, "as-group-operand", true, "as-group-operand|"+q[len("$.input.recv"):]+"|"+rc.T+rc.IO, og.Line,
 					map[string]any{"query": gq, "schema": txt, "impl": og.Line, "expected": "ACC Boolean Single", "class": "as-group-operand"})
 				if og.Line != "ACC Boolean Single" {
